@@ -9,8 +9,14 @@ Property theorems only; proofs in `JediVerif/Proofs/Eigen.lean`.  Objects:
 * `Impl.g2FrobInto`, `Impl.g2Frob`, `Impl.g2FrobPt` — `G2::frobenius_map` (l.296) with its `switch (power & 3)` / the affine
   map ψ(x, y) = (x̄·γ⁴·u, ȳ·u·γ³) its case 1 induces; γ = `uplusonetotheqminusoneoversix`;
 * `Impl.frobTable`, `Impl.frobTablePt` — the array `t[0..3] = [Q, −ψQ, ψ²Q, −ψ³Q]` of `G2::multiply_frobenius`;
-* `Impl.decomposeLambda`, `Impl.xadic` — the decompositions of `Properties/C06.lean`.
-The judge compares `g1Endo` / `g2FrobInto` with the raw Jacobian output of the library on every `g1_endo` / `g2_frob` line.
+* `Impl.decomposeLambda`, `Impl.xadic` — the decompositions of `Properties/C06.lean`;
+* `Impl.g1MultiplyEndomorphism`, `Impl.g2MultiplyFrobenius` — the WHOLE methods `G1::multiply_endomorphism(a, scalar)`
+  (l.268/l.173) and `G2::multiply_frobenius(a, scalar)` (l.396/l.326): decomposition, wNAF recodings, tables, and the
+  interleaved double-and-add loops with `found_one` (`Impl.interRun`), run on the generated Jacobian arithmetic
+  (`Gen.Proj.add / negate / multiply2`, `Gen.Proj2.*`).
+The judge compares `g1Endo` / `g2FrobInto` with the raw Jacobian output of the library on every `g1_endo` / `g2_frob` line,
+and `g1MultiplyEndomorphism` / `g2MultiplyFrobenius` with the raw Jacobian output of `G1::multiply` / `G2::multiply` on
+every `g1_mul`, `g1_mula`, `g2_mul`, `g2_mula` line.
 
 "G1" and "G2" are the groups as the library defines them: the multiples of the published generators
 (`InSpanG1 P := ∃ k, P = [k]g1`, `InSpanG2`).  Every point of these groups is on the curve and killed by r.  That they
@@ -146,6 +152,36 @@ theorem xadic_multiply_correct' {Q : G2Pt} (hQ : InSpanG2 Q) (k : Nat) (hk : k <
     multiSmul (xadic k) (frobTablePt Q) = Pt.smul k Q :=
   xadic_correct hQ k hk
 
+/-! ### (vii) the methods themselves: `G1::multiply_endomorphism`, `G2::multiply_frobenius` return [k]P -/
+
+/-- the generated Jacobian `add / negate / multiply2 / zero` compute, on triples denoting curve points (z = 0 included),
+the operations of the elliptic-curve group (`jacPoint` : the Mathlib point a triple denotes) — any curve y² = x³ + b. -/
+theorem jacobian_ops_represent_group {K : Type} [Field K] [DecidableEq K] {b : K} (hc : CurveHyp b) :
+    OpsRep (jacOps K) (ValidJ b) (jacPoint hc) := jacOps_rep hc
+
+/-- the invariant of the interleaved loops, for ANY carrier representing ANY commutative group, any number of lanes, any
+window `w ≥ 1`, any well-formed digit lists no longer than `top`: the loop returns a valid representative of
+`Σ_lanes ±(Σ dᵢ 2^i)·B`. -/
+theorem interleaved_loop_spec {C G : Type} [AddCommGroup G] {ops : GOps C} {valid : C → Prop} {ρ : C → G}
+    (R : OpsRep ops valid ρ) (w : Nat) (hw : 1 ≤ w) (lb : List (Lane C × G))
+    (hOK : ∀ p ∈ lb, LaneOK valid ρ w p.1 p.2) (top : Nat) (hlen : ∀ p ∈ lb, p.1.digits.length ≤ top) :
+    valid (interRun ops (lb.map Prod.fst) top top).1 ∧
+    ρ (interRun ops (lb.map Prod.fst) top top).1 =
+      (lb.map fun p => (laneSign p.1 * digitsVal p.1.digits) • p.2).sum :=
+  interRun_rep_full R w hw lb hOK top hlen
+
+/-- **`G1::multiply_endomorphism(a, k)` returns `[k]a`** for every Jacobian triple `a` denoting a point of G1 (any
+representative, ∞ included) and every `k < 2^256` (reduced modulo r or not). -/
+theorem g1_multiply_endomorphism_correct (a : Jac Fq) (ha : InSpanG1 (Pt.ofJac a)) (k : Nat) (hk : k < 2 ^ 256) :
+    Pt.ofJac (g1MultiplyEndomorphism a k) = Pt.smul k (Pt.ofJac a) :=
+  g1MultiplyEndomorphism_correct a ha k hk
+
+/-- **`G2::multiply_frobenius(a, k)` returns `[k]a`** for every Jacobian triple `a` denoting a point of G2 and every
+`k < 2^256`. -/
+theorem g2_multiply_frobenius_correct (a : Jac Fq2) (ha : InSpanG2 (Pt.ofJac a)) (k : Nat) (hk : k < 2 ^ 256) :
+    Pt.ofJac (g2MultiplyFrobenius a k) = Pt.smul k (Pt.ofJac a) :=
+  g2MultiplyFrobenius_correct a ha k hk
+
 /-! ### non-vacuity -/
 
 example : InSpanG1 g1Gen ∧ InSpanG2 g2Gen := ⟨inSpanG1_gen, inSpanG2_gen⟩
@@ -154,5 +190,7 @@ example : g2FrobPt g2Gen ≠ g2Gen := by decide +kernel
 example : g1EndoPt g1Gen = Pt.smul g1_endomorphism_lambda g1Gen := endo_eigenvalue inSpanG1_gen
 example : multiSmul (xadic (2 ^ 256 - 1)) (frobTablePt g2Gen) = Pt.smul (2 ^ 256 - 1) g2Gen :=
   xadic_multiply_correct' inSpanG2_gen _ (by decide)
+example : Pt.ofJac (g1MultiplyEndomorphism (Pt.toJac g1Gen) 0xBEEF) = Pt.smulFast 0xBEEF g1Gen := by decide +kernel
+example : Pt.ofJac (g2MultiplyFrobenius (Pt.toJac g2Gen) 0xBEEF) = Pt.smulFast 0xBEEF g2Gen := by decide +kernel
 
 end Jedi.C06
